@@ -51,7 +51,9 @@ def run(module, cfg, scratch, workers=16, timeout=1800, env=None, extra=(),
     cfgp = cfg if os.path.isabs(cfg) else os.path.join(SPEC_DIR, cfg)
     meta = os.path.join(scratch, 'meta_%d' % int(time.time() * 1e6))
     os.makedirs(meta, exist_ok=True)
-    cmd = ['java', '-XX:+UseParallelGC']
+    # (TLC's own temporary directories go into the scratch directory too, not
+    #  into the system's: they are removed with it)
+    cmd = ['java', '-XX:+UseParallelGC', '-Djava.io.tmpdir=' + meta]
     if heap:
         cmd.append('-Xmx' + heap)
     if dfs_queue:
